@@ -5,7 +5,7 @@ scheduler steps, which is what the Rust assertions demand.  Implementation monit
 prints a panic, every scenario terminates within its bound, a build whose scripts all succeed exits 0.
 Schedule control: REDO_VERIF_DELAY pauses a process right after it started a job or noticed a child exit, so
 that several events (child exits, token arrivals) are ready at its next wake-up."""
-import itertools, random
+import time, itertools, random
 from common import *
 from proj import Project
 import sched
@@ -239,6 +239,49 @@ def run(ctx):
                 p = write_replay("C09", "log-pipe", dict(kind="impl-monitor", scenario=scen, rc=rs[0].rc, timed_out=rs[0].timed_out, built=built, stderr=rs[0].err[-1200:],
                     replay="slow.do: sleep 2.5; echo slow.  default.t.do: echo $2.  redo -j2 slow x{200}_0.t … x{200}_399.t  (hangs; with --no-log it finishes in seconds)"))
                 viol.append(Violation("C09", p, "`redo -j2 slow <400 long-named targets>`: all scripts succeed but the command %s (%d of 400 targets built): redo blocks writing log lines to its log viewer, which does not read them while it follows `slow`" % ("did not terminate within the bound" if rs[0].timed_out else "exited %d" % rs[0].rc, built)))
+        finally:
+            pr.destroy()
+    # 4f. the producer side of `… | redo-stamp` runs a redo command itself: redo-stamp must not hold the database while it
+    #     waits for its input (with the write lock taken first the two wait for each other until the 60 s busy timeout)
+    if not viol:
+        pr = Project()
+        try:
+            pr.write("part.do", "sleep 0.2; echo part\n")
+            pr.write("s.do", '( redo-ifchange part && cat part ) | redo-stamp\ncat part >"$3"\n')
+            pr.write("all.do", "redo-ifchange s\n")
+            t0 = time.time()
+            rs = sched.run_cmds(pr, [["redo", "-j2", "all"]], timeout=25)
+            stats["scenarios"] += 1
+            stats["runs"] += 1
+            scen = dict(name="producer of a stamped pipeline runs redo", commands=[["redo", "-j2", "all"]])
+            if rs[0].timed_out or rs[0].rc != 0:
+                p = write_replay("C09", "stamp-pipeline", dict(kind="impl-monitor", scenario=scen, rc=rs[0].rc, timed_out=rs[0].timed_out, wall=time.time() - t0, stderr=rs[0].err[-1200:],
+                    replay="s.do: ( redo-ifchange part && cat part ) | redo-stamp; cat part >$3.  part.do: sleep 0.2; echo part.  redo -j2 all"))
+                viol.append(Violation("C09", p, "`( redo-ifchange part && cat part ) | redo-stamp`: all scripts succeed but the command %s" % ("did not terminate within 25 s (redo-stamp and the redo-ifchange feeding it wait for each other)" if rs[0].timed_out else "exited %d: %s" % (rs[0].rc, rs[0].err.strip().splitlines()[-1][:160] if rs[0].err.strip() else ""))))
+        finally:
+            pr.destroy()
+    # 4g. a nested `redo -j1` (its own jobserver) started by a script whose redo-ifchange had just borrowed a token and left
+    #     its IOU on the outer build's cheat pipe: the inner jobserver must not see that IOU
+    if not viol:
+        pr = Project()
+        try:
+            pr.write("A.do", "redo-ifchange X\necho a\n")
+            pr.write("B.do", "sleep 0.4\nredo-ifchange X\nredo -j1 Z\necho b\n")
+            pr.write("C.do", "sleep 3.5\necho c\n")
+            pr.write("D.do", "sleep 3.5\necho d\n")
+            pr.write("X.do", "sleep 1.5\necho x\n")
+            pr.write("Z.do", "echo z\n")
+            rs = sched.run_cmds(pr, [["redo", "-j2", "A", "B", "C", "D"]], timeout=40)
+            stats["scenarios"] += 1
+            stats["runs"] += 1
+            stats["nested_j1_cheats"] = sum(1 for e in rs[0].trace if e[2] == "js.cheat")
+            scen = dict(name="nested redo -j1 after an IOU", commands=[["redo", "-j2", "A", "B", "C", "D"]])
+            missing = [t for t in "ABCDXZ" if pr.read(t) is None]
+            if rs[0].timed_out or rs[0].rc != 0 or "on exit: expected" in rs[0].err or "panicked" in rs[0].err or missing:
+                m = re.search(r"on exit: expected[^\n]*", rs[0].err)
+                p = write_replay("C09", "nested-j1", dict(kind="impl-monitor", scenario=scen, rc=rs[0].rc, missing=missing, stderr=rs[0].err[-1500:],
+                    replay="A.do: redo-ifchange X.  B.do: sleep 0.4; redo-ifchange X; redo -j1 Z.  C.do, D.do: sleep 3.5.  X.do: sleep 1.5.  redo -j2 A B C D (log viewer on)"))
+                viol.append(Violation("C09", p, "all scripts succeed but `redo -j2 A B C D` (B.do runs `redo -j1 Z` after its redo-ifchange borrowed a token) %s%s" % ("did not terminate" if rs[0].timed_out else "exited %d" % rs[0].rc, ": " + m.group(0) if m else "")))
         finally:
             pr.destroy()
     # 5. random graphs, random -j, random delays
